@@ -27,7 +27,7 @@ Extraction "model.ml"
   HeaderFields.header_fields HeaderFields.dedicated_fields SpecialDomains.special_exact_or_sub SpecialDomains.special_sub_only
   UcdHeader.re_word_ranges UcdHeader.re_digit_ranges UcdHeader.re_space_ranges
   Ling.parse_language Ling.parse_language_Z Ling.str_language Ling.fix_codes Ling.cli_language Ling.lookup_munched
-  Ling.lcmessages_parent Ling.basename Ling.splitext Ling.lg_endswith Ling.s_dot_po Ling.check_language LingData.gen_cfg
+  Ling.lcmessages_parent Ling.basename Ling.po_stem Ling.lg_endswith Ling.s_dot_po Ling.check_language LingData.gen_cfg
   MoParser.mo_run MoParser.mo_parse
   Encodings.cm_decode Encodings.cm_encode Encodings.cm_build Encodings.is_portable_encoding
   Encodings.propose_portable_encoding Encodings.is_ascii_compatible_encoding Encodings.classify
